@@ -229,114 +229,156 @@ Proof. exact coarse_fragments_any_example. Qed.
 Example C08_ex_gtxt : to_string ex_gtxt = "{#X=[#A][$a]#1[#B]=([#D])=([#PEO]=[>].[!x])[#C]1,#Y=[#A][$a]=1=[#B]([#PEO]=[>].[!x])[#C]1}"%string.
 Proof. reflexivity. Qed.
 
-(** ALL-ATOM fragments, ring-free, organic-subset atoms, unbounded (Write/AtomTree.v).  ASSUMED, exactly:
-    the fragment graph g is a well-formed networkx graph (distinct keys, symmetric adjacency, no self loops); every node
-    satisfies [atom_ok dh el D]: `element` is the string el k, one of B C N O P S F Cl Br I ([upper_organic]); `charge`
-    absent or 0; `hcount` absent or an int; `aromatic` absent or False; no rs_isomer / isotope / class; the transcript
-    has_default_h_count says True for it (dh k: then pysmiles' format_atom writes the bare element); `bonding` is absent
-    when D k = [] and else the list of D k's descriptors as stored ("$a1": four kinds, alphanumeric label, order 0..4);
-    every edge carries an integer `order` 0..4 ([orders_ok]); the ring-edge transcript is [] (a fragment whose DFS leaves
-    no ring edge: ring-free; rings are NOT covered).  THEN, for the DFS tree T the writer uses (T is a rose tree on the
-    nodes reachable from min(g), its edges are edges of g): write_graph(smiles_format=True, name_attr='atomname') returns
-    [tree_text]: the rendering of the writer's visit list (branch edges written "(" symbol atom ... ")"), in the order
-    [worder T]; the strip model (strip component's main lemma, through CoarseGraph.strip_items) splits it into the SMILES
-    text [tree_clean] and the dict {i: descriptors of the i-th written atom} ([ddl], closed form [C08_atom_tree_descriptor_dict]),
-    no E/Z marks, no annotations; Frag's model of pysmiles (tokenizer + base_smiles_parser + parse_atom + bond orders:
-    SmilesProofs.render_parse, SmilesSpec.graph_of) reads [tree_clean] as [tree_sgraph]: atom i = the i-th written atom
-    with element / charge 0 / aromatic False, one bond per tree edge between the positions of its ends with the order of
-    its symbol ('.' 0, none 1, '=' 2, '#' 3, '$' 4); and the model of fragment_iter(all_atom=True) up to pysmiles' hydrogen
-    completion ([Template.fragment_template]) returns [assemble F tree_sgraph dict]: fragname F, fragid 0, weight 1 and
+(** ALL-ATOM fragments, ring-free, unbounded (Write/AtomTree.v).  ASSUMED, exactly:
+    the fragment graph g is a well-formed networkx graph (distinct keys, symmetric adjacency, no self loops); [sp k] gives
+    for every node its element, hydrogen count, charge and whether it is written bare, inside the finite domain
+    [aspec_ok]: element one of B C N O P S F Cl Br I ([upper_organic]), 0 <= hcount <= 9, -3 <= charge <= 3, bare only
+    with charge 0; every node satisfies [atom_ok dh sp D]: `element`, `charge` (absent = 0), `hcount` (absent = 0) are
+    those of sp k; `aromatic` absent or False; no rs_isomer / isotope / class; it is written bare exactly when its charge
+    is 0 and the transcript has_default_h_count says True (dh k) -- that is pysmiles' format_atom --, else as the bracket
+    atom [E Hn charge]; `bonding` is absent when D k = [] and else the list of D k's descriptors as stored ("$a1": four
+    kinds, alphanumeric label, order 0..4); every edge carries an integer `order` 0..4 ([orders_ok]); the ring-edge
+    transcript is [] (ring-free; rings are NOT covered); the annotation parser accepts the empty annotation
+    (fragment_node_parser fo [] = Ok a0).  THEN, for the DFS tree T the writer uses (a rose tree on the nodes reachable
+    from min(g), its edges are edges of g): write_graph(smiles_format=True, name_attr='atomname') returns [tree_text]:
+    the rendering of the writer's visit list (branch edges written "(" symbol atom ... ")"), in the order [worder T]; the
+    strip model (strip component's main lemma, through CoarseGraph.strip_items) splits it into the SMILES text
+    [tree_clean], the dict {i: descriptors of the i-th written atom} ([ddl], closed form
+    [C08_atom_tree_descriptor_dict]), no E/Z marks, and the annotation dict with one (empty-annotation) entry per bracket
+    atom ([annl], closed form [C08_atom_tree_annotation_dict]); Frag's model of pysmiles (tokenizer + base_smiles_parser +
+    parse_atom + bond orders: SmilesProofs.render_parse, SmilesSpec.graph_of) reads [tree_clean] as [tree_sgraph]: atom i =
+    the i-th written atom with [aattrs] (bare: element / charge 0 / aromatic False; bracket: charge / hcount / aromatic
+    False / element -- parse_atom's regex engine on the 1400 atom texts of the domain is decided by computation,
+    [C08_atom_domain_table]), one bond per tree edge between the positions of its ends with the order of its symbol ('.' 0,
+    none 1, '=' 2, '#' 3, '$' 4); and the model of fragment_iter(all_atom=True) up to pysmiles' hydrogen completion
+    ([Template.fragment_template]) returns [assemble F tree_sgraph dict annotations]: fragname F, fragid 0, weight 1 and
     `bonding` on every atom.  NOT covered here: hcount after fill_valence (Frag/TemplateFinal.v), atomname, the
     explicit-hydrogen round of read_fragment_smiles. *)
-Theorem C08_atom_tree_roundtrip : forall dh el D g,
-  (forall k, str_in (el k) upper_organic = true) -> (forall k, forallb d_ok (D k) = true) ->
-  (forall n, In n g -> atom_ok dh el D n) -> orders_ok g ->
-  forall fo F start, graph_wf g = true -> min_node g = Ok start ->
+Theorem C08_atom_tree_roundtrip : forall dh sp D g,
+  (forall k, aspec_ok (sp k) = true) -> (forall k, forallb d_ok (D k) = true) ->
+  (forall n, In n g -> atom_ok dh sp D n) -> orders_ok g ->
+  forall fo a0 F start, fragment_node_parser fo [] = Ok a0 -> graph_wf g = true -> min_node g = Ok start ->
   exists T, rkey T = start /\ dfs_edges g start = Ok (redges T) /\ NoDup (rkeys T)
     /\ (forall x, reachable g start x -> In x (rkeys T))
     /\ (forall e, In e (redges T) -> In (snd e) (neighbors g (fst e)))
     /\ let eo := eo_of g in
        let dd := ddl 0 (map D (worder T)) [] in
-       write_graph_full_by (S "atomname") true dh g [] = Ok {| r_text := tree_text el D eo T; r_visit := worder T; r_mtrace := [] |}
-       /\ strip_bonding_descriptors fo (tree_text el D eo T) = Ok (tree_clean el eo T, dd, [], [])
-       /\ smiles_parse (tree_clean el eo T) = Ok (tree_sgraph el eo T)
-       /\ fragment_template fo F (tree_text el D eo T) = Ok (assemble F (tree_sgraph el eo T) dd []).
+       let ann := annl a0 0 (map (fun k => negb (a_bare (sp k))) (worder T)) [] in
+       write_graph_full_by (S "atomname") true dh g [] = Ok {| r_text := tree_text (stok sp) D eo T; r_visit := worder T; r_mtrace := [] |}
+       /\ strip_bonding_descriptors fo (tree_text (stok sp) D eo T) = Ok (tree_clean (stok sp) eo T, dd, [], ann)
+       /\ smiles_parse (tree_clean (stok sp) eo T) = Ok (tree_sgraph (sattrs sp) eo T)
+       /\ fragment_template fo F (tree_text (stok sp) D eo T) = Ok (assemble F (tree_sgraph (sattrs sp) eo T) dd ann).
 Proof. exact atom_tree_graph. Qed.
 (** the same at the level of the writer's loop: ANY rose tree with distinct keys as DFS transcript, any formatting
-    functions that return the element followed by the descriptors / the symbol of the edge *)
-Theorem C08_atom_tree_transcript : forall fo F el D eo T n fmt sym rsym,
+    functions that return the atom text followed by the descriptors / the symbol of the edge *)
+Theorem C08_atom_tree_transcript : forall fo a0 F sp D eo T n fmt sym rsym,
+  fragment_node_parser fo [] = Ok a0 ->
   NoDup (rkeys T) -> (rsize T <= n)%nat ->
-  (forall k, str_in (el k) upper_organic = true) -> (forall k, forallb d_ok (D k) = true) ->
-  (forall k, In k (rkeys T) -> fmt k = Ok (el k ++ fbt (D k))) ->
+  (forall k, aspec_ok (sp k) = true) -> (forall k, forallb d_ok (D k) = true) ->
+  (forall k, In k (rkeys T) -> fmt k = Ok (render_tok (stok sp k) ++ fbt (D k))) ->
   (forall e, In e (redges T) -> sym (fst e) (snd e) = Ok (optb (eo (fst e) (snd e)))) ->
   let dd := ddl 0 (map D (worder T)) [] in
+  let ann := annl a0 0 (map (fun k => negb (a_bare (sp k))) (worder T)) [] in
   run_writer n (mk_env true fmt sym rsym (redges T) []) (rkey T)
-    = Ok {| r_text := tree_text el D eo T; r_visit := worder T; r_mtrace := [] |}
-  /\ strip_bonding_descriptors fo (tree_text el D eo T) = Ok (tree_clean el eo T, dd, [], [])
-  /\ smiles_parse (tree_clean el eo T) = Ok (tree_sgraph el eo T)
-  /\ fragment_template fo F (tree_text el D eo T) = Ok (assemble F (tree_sgraph el eo T) dd []).
+    = Ok {| r_text := tree_text (stok sp) D eo T; r_visit := worder T; r_mtrace := [] |}
+  /\ strip_bonding_descriptors fo (tree_text (stok sp) D eo T) = Ok (tree_clean (stok sp) eo T, dd, [], ann)
+  /\ smiles_parse (tree_clean (stok sp) eo T) = Ok (tree_sgraph (sattrs sp) eo T)
+  /\ fragment_template fo F (tree_text (stok sp) D eo T) = Ok (assemble F (tree_sgraph (sattrs sp) eo T) dd ann).
 Proof. exact atom_tree_transcript. Qed.
+(** ... and for ANY atom tokens (bare organic-subset atom or bracket atom without annotation) that pysmiles' model parses
+    as non-aromatic atoms: the finite domain above is only used to discharge these two hypotheses *)
+Theorem C08_atom_tree_transcript_gen : forall fo a0 F at_ aat D eo T n fmt sym rsym,
+  fragment_node_parser fo [] = Ok a0 ->
+  NoDup (rkeys T) -> (rsize T <= n)%nat ->
+  (forall k, atom_tok (at_ k) = true) -> (forall k, parse_atom (clean_tok (at_ k)) = Ok (aat k)) ->
+  (forall k, aget (S "aromatic") (aat k) = Some (VBool false)) -> (forall k, forallb d_ok (D k) = true) ->
+  (forall k, In k (rkeys T) -> fmt k = Ok (render_tok (at_ k) ++ fbt (D k))) ->
+  (forall e, In e (redges T) -> sym (fst e) (snd e) = Ok (optb (eo (fst e) (snd e)))) ->
+  let dd := ddl 0 (map D (worder T)) [] in
+  let ann := annl a0 0 (map (fun k => is_bracket (at_ k)) (worder T)) [] in
+  run_writer n (mk_env true fmt sym rsym (redges T) []) (rkey T)
+    = Ok {| r_text := tree_text at_ D eo T; r_visit := worder T; r_mtrace := [] |}
+  /\ strip_bonding_descriptors fo (tree_text at_ D eo T) = Ok (tree_clean at_ eo T, dd, [], ann)
+  /\ smiles_parse (tree_clean at_ eo T) = Ok (tree_sgraph aat eo T)
+  /\ fragment_template fo F (tree_text at_ D eo T) = Ok (assemble F (tree_sgraph aat eo T) dd ann).
+Proof. exact atom_tree_transcript_gen. Qed.
+(** the finite atom domain: the token is an atom token of the strip / SMILES grammars, pysmiles' parse_atom (model)
+    returns [aattrs], the text has no ',' *)
+Theorem C08_atom_domain_table : forall s, aspec_ok s = true ->
+  atom_tok (atok_of s) = true /\ parse_atom (clean_tok (atok_of s)) = Ok (aattrs s)
+  /\ forallb (fun c => negb (Ascii.eqb c ","%char)) (render_tok (atok_of s)) = true.
+Proof. exact aspec_table. Qed.
 (** what was read back IS the fragment, renumbered by k |-> position of k in the order of writing: the positions are a
     bijection between the tree's nodes and 0..n-1 (no duplicates, a permutation of the nodes); atom [pos k] of the
-    template carries k's element (charge 0, not aromatic), the fragment's name and exactly k's descriptors as `bonding`
-    (none when k has none); the template's bonds are exactly the tree edges, ends mapped by [pos], with their orders *)
-Theorem C08_atom_tree_template_iso : forall F el D eo T, NoDup (rkeys T) ->
+    template carries k's parsed attributes (element, charge, hcount of a bracket atom, not aromatic), the fragment's
+    name, exactly k's descriptors as `bonding` (none when k has none) and, for a bracket atom, the parse of the empty
+    annotation; the template's bonds are exactly the tree edges, ends mapped by [pos], with their orders *)
+Theorem C08_atom_tree_template_iso : forall a0 F (aat : Z -> attrs) (br : Z -> bool) D eo T, NoDup (rkeys T) ->
   let W := worder T in
-  let Tm := assemble F (tree_sgraph el eo T) (ddl 0 (map D W) []) [] in
+  let Tm := assemble F (tree_sgraph aat eo T) (ddl 0 (map D W) []) (annl a0 0 (map br W) []) in
   NoDup W /\ Permutation W (rkeys T) /\ length (t_nodes Tm) = length W
   /\ (forall k, In k (rkeys T) ->
         nth_error W (pos W k) = Some k
         /\ nth_error (t_nodes Tm) (pos W k)
-           = Some (template_node F (atom_attrs (el k)) (match D k with [] => None | Ds => Some (map d_stored Ds) end) None))
+           = Some (template_node F (aat k) (match D k with [] => None | Ds => Some (map d_stored Ds) end)
+                                 (if br k then Some (aupdate [] a0) else None)))
   /\ Permutation (t_edges Tm) (map (fun e => (pos W (fst e), pos W (snd e), ordv (eo (fst e) (snd e)))) (redges T)).
 Proof. exact atom_tree_template_iso. Qed.
 (** the descriptor dict in closed form: one entry per atom that has descriptors, keyed by its position *)
 Theorem C08_atom_tree_descriptor_dict : forall Dl, ddl 0 Dl [] = dentries 0 Dl.
 Proof. exact (fun Dl => ddl_entries Dl 0%nat [] (fun kv (H : In kv []) => match H with end)). Qed.
-(** non-vacuity: a fragment with nested branches, a double bond on a branch edge, a triple bond on a chain edge, six
-    elements incl. the two-letter Cl, descriptors of the four kinds with orders 0, 1, 2: the hypotheses hold
-    ([atom_ok_b] decides [atom_ok]: C08_atom_ok_decided), the text, the SMILES text, and what the model of fragment_iter reads back *)
+(** the annotation dict in closed form: one entry per bracket atom *)
+Theorem C08_atom_tree_annotation_dict : forall a0 fl, annl a0 0 fl [] = aentries a0 0 fl.
+Proof. exact (fun a0 fl => annl_entries a0 fl 0%nat [] (fun kv (H : In kv []) => match H with end)). Qed.
+(** non-vacuity: a fragment with nested branches, a double bond on a branch edge, a triple bond on a chain edge, a charged
+    atom written [N+], an atom without default hydrogen count written [CH2], the two-letter Cl, descriptors of the four
+    kinds with orders 0, 1, 2: the hypotheses hold ([atom_ok_b] / [orders_ok_b] decide them: C08_atom_ok_decided,
+    C08_orders_ok_decided), the text, the SMILES text, and what the model of fragment_iter reads back *)
 Example C08_atom_tree_nonvacuous :
   let fo : float_oracle := fun _ => None in
-  let dh := fun _ : Z => true in
   graph_wf ex_ag = true /\ min_node ex_ag = Ok 0 /\ ring_contract ex_ag (dfs_tree ex_ag) [] = true
-  /\ forallb (atom_ok_b dh ex_ael ex_aD) ex_ag = true
+  /\ forallb (atom_ok_b ex_dh ex_asp ex_aD) ex_ag = true /\ orders_ok_b ex_ag = true
+  /\ forallb (fun k => aspec_ok (ex_asp k)) [0; 1; 2; 3; 4; 5; 6; 7] = true
   /\ dfs_edges ex_ag 0 = Ok (redges ex_aT)
-  /\ write_graph_by (S "atomname") true dh ex_ag [] = Ok (S "C[$a](N(CF)C#Cl=[<x].[!])=O[>]")
-  /\ tree_text ex_ael ex_aD (eo_of ex_ag) ex_aT = S "C[$a](N(CF)C#Cl=[<x].[!])=O[>]"
-  /\ tree_clean ex_ael (eo_of ex_ag) ex_aT = S "C(N(CF)C#Cl)=O"
-  /\ match fragment_template fo (S "X") (S "C[$a](N(CF)C#Cl=[<x].[!])=O[>]") with
-     | Ok Tm => map (fun a => (aget (S "element") a, aget (S "bonding") a)) (t_nodes Tm)
-                = [(Some (VStr (S "C")), Some (VList [VStr (S "$a1")])); (Some (VStr (S "N")), None); (Some (VStr (S "C")), None); (Some (VStr (S "F")), None);
-                   (Some (VStr (S "C")), None); (Some (VStr (S "Cl")), Some (VList [VStr (S "<x2"); VStr (S "!0")])); (Some (VStr (S "O")), Some (VList [VStr (S ">1")]))]
+  /\ write_graph_by (S "atomname") true ex_dh ex_ag [] = Ok (S "C[$a]([N+]([CH2]F)C#Cl=[<x].[!])=O[>]")
+  /\ tree_text (stok ex_asp) ex_aD (eo_of ex_ag) ex_aT = S "C[$a]([N+]([CH2]F)C#Cl=[<x].[!])=O[>]"
+  /\ tree_clean (stok ex_asp) (eo_of ex_ag) ex_aT = S "C([N+]([CH2]F)C#Cl)=O"
+  /\ match fragment_template fo (S "X") (S "C[$a]([N+]([CH2]F)C#Cl=[<x].[!])=O[>]") with
+     | Ok Tm => map (fun a => (aget (S "element") a, aget (S "charge") a, aget (S "hcount") a, aget (S "bonding") a)) (t_nodes Tm)
+                = [(Some (VStr (S "C")), Some (VInt 0), None, Some (VList [VStr (S "$a1")])); (Some (VStr (S "N")), Some (VInt 1), Some (VInt 0), None);
+                   (Some (VStr (S "C")), Some (VInt 0), Some (VInt 2), None); (Some (VStr (S "F")), Some (VInt 0), None, None);
+                   (Some (VStr (S "C")), Some (VInt 0), None, None); (Some (VStr (S "Cl")), Some (VInt 0), None, Some (VList [VStr (S "<x2"); VStr (S "!0")]));
+                   (Some (VStr (S "O")), Some (VInt 0), None, Some (VList [VStr (S ">1")]))]
                 /\ t_edges Tm = [(0, 1, VInt 1); (1, 2, VInt 1); (2, 3, VInt 1); (1, 4, VInt 1); (4, 5, VInt 3); (0, 6, VInt 2)]%nat
      | Err _ => False
      end.
 Proof. exact atom_tree_example. Qed.
 
-(** a LIST of ring-free all-atom fragments, any number, unbounded ([afrag] = name, graph, elements, descriptors, default-H
-    nodes; [af_ok]: name free of ',' and '=', the hypotheses of C08_atom_tree_roundtrip with the transcript "has default H
-    count" = membership in the list, a non-empty graph): there are texts t_1..t_n with [af_back] = everything
+(** a LIST of ring-free all-atom fragments, any number, unbounded ([afrag] = name, graph, atom attributes, descriptors,
+    default-H nodes; [af_ok]: name free of ',' and '=', the hypotheses of C08_atom_tree_roundtrip with the transcript "has
+    default H count" = membership in the list, a non-empty graph): there are texts t_1..t_n with [af_back] = everything
     C08_atom_tree_roundtrip says of fragment i and t_i, such that write_cgsmiles_fragments(smiles_format=True) writes
     "{#name1=t_1,...,#namen=t_n}", no t_i contains ',' so [fragment_split] returns the pairs (name_i, t_i) in order, and
     the model of fragment_iter(all_atom=True) up to the hydrogen completion yields, in order and under each name,
     [fragment_template] of t_i (whose value [af_back] gives: the fragment renumbered in the order of writing).
     The two list-level facts are generic ([C08_split_definitions], [C08_write_definitions]: ANY entries / texts). *)
-Theorem C08_atom_fragments_roundtrip : forall fo (fs : list afrag), fs <> [] -> Forall af_ok fs ->
-  exists ts, Forall2 (af_back fo) fs ts /\
+Theorem C08_atom_fragments_roundtrip : forall fo a0 (fs : list afrag), fragment_node_parser fo [] = Ok a0 -> fs <> [] -> Forall af_ok fs ->
+  exists ts, Forall2 (af_back fo a0) fs ts /\
     let txt := S "{" ++ join (S ",") (map nt_def (combine (map af_name fs) ts)) ++ S "}" in
     write_cgsmiles_fragments true (map af_entry fs) = Ok txt
     /\ fragment_split txt = combine (map af_name fs) ts
     /\ read_atom_fragments fo txt = map (fun nt => (fst nt, fragment_template fo (fst nt) (snd nt))) (combine (map af_name fs) ts).
 Proof. exact atom_fragments_roundtrip. Qed.
-Theorem C08_af_back_spelled : forall fo F g el D dhl t, af_back fo (F, g, el, D, dhl) t <->
+Theorem C08_af_back_spelled : forall fo a0 F g sp D dhl t, af_back fo a0 (F, g, sp, D, dhl) t <->
   exists T, min_node g = Ok (rkey T) /\ dfs_edges g (rkey T) = Ok (redges T) /\ NoDup (rkeys T)
-    /\ t = tree_text el D (eo_of g) T
+    /\ t = tree_text (stok sp) D (eo_of g) T
     /\ write_graph_by (S "atomname") true (fun k => memz k dhl) g [] = Ok t
-    /\ strip_bonding_descriptors fo t = Ok (tree_clean el (eo_of g) T, ddl 0 (map D (worder T)) [], [], [])
-    /\ smiles_parse (tree_clean el (eo_of g) T) = Ok (tree_sgraph el (eo_of g) T)
-    /\ fragment_template fo F t = Ok (assemble F (tree_sgraph el (eo_of g) T) (ddl 0 (map D (worder T)) []) []).
-Proof. exact (fun fo F g el D dhl t => conj (fun H => H) (fun H => H)). Qed.
+    /\ strip_bonding_descriptors fo t
+       = Ok (tree_clean (stok sp) (eo_of g) T, ddl 0 (map D (worder T)) [], [], annl a0 0 (map (fun k => negb (a_bare (sp k))) (worder T)) [])
+    /\ smiles_parse (tree_clean (stok sp) (eo_of g) T) = Ok (tree_sgraph (sattrs sp) (eo_of g) T)
+    /\ fragment_template fo F t = Ok (assemble F (tree_sgraph (sattrs sp) (eo_of g) T) (ddl 0 (map D (worder T)) [])
+                                              (annl a0 0 (map (fun k => negb (a_bare (sp k))) (worder T)) [])).
+Proof. exact (fun fo a0 F g sp D dhl t => conj (fun H => H) (fun H => H)). Qed.
 (** generic: ANY non-empty list of (name, text) with names free of ',' '=' and texts free of ',' is split back *)
 Theorem C08_split_definitions : forall nts : list (pystr * pystr), nts <> [] -> Forall nt_ok nts ->
   fragment_split (S "{" ++ join (S ",") (map nt_def nts) ++ S "}") = nts.
@@ -348,7 +390,7 @@ Theorem C08_write_definitions : forall sf (es : list frag_entry) (ts : list pyst
   = Ok (S "{" ++ join (S ",") (map nt_def (combine (map (fun e : frag_entry => fst (fst (fst e))) es) ts)) ++ S "}").
 Proof. exact write_definitions. Qed.
 (** [atom_ok_b] / [orders_ok_b] decide the node and edge hypotheses *)
-Theorem C08_atom_ok_decided : forall dh el D n, atom_ok_b dh el D n = true -> atom_ok dh el D n.
+Theorem C08_atom_ok_decided : forall dh sp D n, atom_ok_b dh sp D n = true -> atom_ok dh sp D n.
 Proof. exact atom_ok_dec. Qed.
 Theorem C08_orders_ok_decided : forall g, orders_ok_b g = true -> orders_ok g.
 Proof. exact orders_ok_dec. Qed.
@@ -356,15 +398,16 @@ Example C08_atom_fragments_nonvacuous :
   Forall af_ok ex_afs
   /\ write_cgsmiles_fragments true (map af_entry ex_afs) = Ok ex_atxt
   /\ map fst (read_atom_fragments (fun _ => None) ex_atxt) = [S "X"; S "Y"]
-  /\ map (fun nr => match snd nr with Ok Tm => (map (fun a => (aget (S "element") a, aget (S "bonding") a)) (t_nodes Tm), t_edges Tm) | Err _ => ([], []) end)
+  /\ map (fun nr => match snd nr with Ok Tm => (map (fun a => (aget (S "element") a, aget (S "charge") a, aget (S "bonding") a)) (t_nodes Tm), t_edges Tm) | Err _ => ([], []) end)
          (read_atom_fragments (fun _ => None) ex_atxt)
-     = [([(Some (VStr (S "C")), Some (VList [VStr (S "$a1")])); (Some (VStr (S "N")), None); (Some (VStr (S "C")), None); (Some (VStr (S "F")), None);
-          (Some (VStr (S "C")), None); (Some (VStr (S "Cl")), Some (VList [VStr (S "<x2"); VStr (S "!0")])); (Some (VStr (S "O")), Some (VList [VStr (S ">1")]))],
+     = [([(Some (VStr (S "C")), Some (VInt 0), Some (VList [VStr (S "$a1")])); (Some (VStr (S "N")), Some (VInt 1), None); (Some (VStr (S "C")), Some (VInt 0), None);
+          (Some (VStr (S "F")), Some (VInt 0), None); (Some (VStr (S "C")), Some (VInt 0), None);
+          (Some (VStr (S "Cl")), Some (VInt 0), Some (VList [VStr (S "<x2"); VStr (S "!0")])); (Some (VStr (S "O")), Some (VInt 0), Some (VList [VStr (S ">1")]))],
          [(0, 1, VInt 1); (1, 2, VInt 1); (2, 3, VInt 1); (1, 4, VInt 1); (4, 5, VInt 3); (0, 6, VInt 2)]%nat);
-        ([(Some (VStr (S "C")), None); (Some (VStr (S "S")), Some (VList [VStr (S "$1")])); (Some (VStr (S "Br")), None)],
+        ([(Some (VStr (S "C")), Some (VInt 0), None); (Some (VStr (S "S")), Some (VInt 0), Some (VList [VStr (S "$1")])); (Some (VStr (S "Br")), Some (VInt 0), None)],
          [(0, 1, VInt 1); (1, 2, VInt 1)]%nat)].
 Proof. exact atom_fragments_example. Qed.
-Example C08_ex_atxt : to_string ex_atxt = "{#X=C[$a](N(CF)C#Cl=[<x].[!])=O[>],#Y=CS[$]Br}"%string.
+Example C08_ex_atxt : to_string ex_atxt = "{#X=C[$a]([N+]([CH2]F)C#Cl=[<x].[!])=O[>],#Y=CS[$]Br}"%string.
 Proof. reflexivity. Qed.
 
 Theorem C08_descriptors_on_atom0 : forall L : list dspec, L <> [] ->
@@ -395,6 +438,9 @@ Print Assumptions C08_atom_tree_roundtrip.
 Print Assumptions C08_atom_tree_transcript.
 Print Assumptions C08_atom_tree_template_iso.
 Print Assumptions C08_atom_tree_descriptor_dict.
+Print Assumptions C08_atom_tree_annotation_dict.
+Print Assumptions C08_atom_tree_transcript_gen.
+Print Assumptions C08_atom_domain_table.
 Print Assumptions C08_atom_fragments_roundtrip.
 Print Assumptions C08_split_definitions.
 Print Assumptions C08_write_definitions.
